@@ -710,6 +710,11 @@ func (a *Assembler) AssembleWithContext(netFlow gopacket.Flow, t *layers.TCP, ac
 			}
 		}
 	} else {
+		if t.SYN {
+			// A SYN always takes one sequence number: the payload of a late or
+			// retransmitted SYN starts at seq+1 too.
+			seq = seq.Add(1)
+		}
 		diff := half.nextSeq.Difference(seq)
 		if diff > 0 {
 			if *debugLog {
